@@ -44,6 +44,17 @@ theorem BgCompat.feedCol (n : ℕ) (k : Kind) (cl : List (List ℕ)) (h : BgComp
       rw [List.getD_eq_getElem _ _ hj]; exact List.getElem_mem hj
     exact h _ hm c hc
 
+theorem pairwise_mem_cases {β : Type} {R : β → β → Prop} {l : List β} (h : l.Pairwise R) {a b : β}
+    (ha : a ∈ l) (hb : b ∈ l) : a = b ∨ R a b ∨ R b a := by
+  induction h with
+  | nil => cases ha
+  | cons hx _ ih =>
+    rcases List.mem_cons.1 ha with rfl | ha' <;> rcases List.mem_cons.1 hb with rfl | hb'
+    · left; rfl
+    · right; left; exact hx _ hb'
+    · right; right; exact hx _ ha'
+    · exact ih ha' hb'
+
 /-- row `r` of the parameter array when `u` is written into column `i` on the rows `S` -/
 def rowU (rows : List (List ℝ)) (i : ℕ) (S : List ℕ) (u : ℝ) (r : ℕ) : List ℝ :=
   if r ∈ S then (rows.getD r []).set i u else rows.getD r []
